@@ -215,3 +215,38 @@ Lemma tie_decomp_dispatch : TIE_decomp_dispatch =
    (1, "caseMTBL_COMPRESSION_ZSTD:return_mtbl_decompress_zstd(input,input_size,output,output_size)");
    (1, "default:returnmtbl_res_failure")].
 Proof. reflexivity. Qed.
+
+(* mtbl/compression.c: mtbl_compression_type_to_str *)
+Lemma tie_comp_mtbl_compression_type_to_str : TIE_comp_mtbl_compression_type_to_str =
+  [(0, "switch(compression_type)");
+   (1, "caseMTBL_COMPRESSION_NONE:return""none""");
+   (1, "caseMTBL_COMPRESSION_SNAPPY:return""snappy""");
+   (1, "caseMTBL_COMPRESSION_ZLIB:return""zlib""");
+   (1, "caseMTBL_COMPRESSION_LZ4:return""lz4""");
+   (1, "caseMTBL_COMPRESSION_LZ4HC:return""lz4hc""");
+   (1, "caseMTBL_COMPRESSION_ZSTD:return""zstd""");
+   (1, "default:returnNULL")].
+Proof. reflexivity. Qed.
+
+(* mtbl/compression.c: mtbl_compression_type_from_str *)
+Lemma tie_comp_mtbl_compression_type_from_str : TIE_comp_mtbl_compression_type_from_str =
+  [(0, "if(strcasecmp(s,""none"")==0)");
+   (1, "*t=MTBL_COMPRESSION_NONE");
+   (1, "returnmtbl_res_success");
+   (0, "elseif(strcasecmp(s,""snappy"")==0)");
+   (1, "*t=MTBL_COMPRESSION_SNAPPY");
+   (1, "returnmtbl_res_success");
+   (0, "elseif(strcasecmp(s,""zlib"")==0)");
+   (1, "*t=MTBL_COMPRESSION_ZLIB");
+   (1, "returnmtbl_res_success");
+   (0, "elseif(strcasecmp(s,""lz4"")==0)");
+   (1, "*t=MTBL_COMPRESSION_LZ4");
+   (1, "returnmtbl_res_success");
+   (0, "elseif(strcasecmp(s,""lz4hc"")==0)");
+   (1, "*t=MTBL_COMPRESSION_LZ4HC");
+   (1, "returnmtbl_res_success");
+   (0, "elseif(strcasecmp(s,""zstd"")==0)");
+   (1, "*t=MTBL_COMPRESSION_ZSTD");
+   (1, "returnmtbl_res_success");
+   (0, "returnmtbl_res_failure")].
+Proof. reflexivity. Qed.
